@@ -329,6 +329,7 @@ fn enums(a: &ShardArgs) {
         }
         t.done(4);
     }
+    errors(a);
     // ---- both directions exist: identity
     round_trip!(a, "Variation", ffi::Variation, Variation);
     round_trip!(a, "AppDecodeLevel", ffi::AppDecodeLevel, dnp3::decode::AppDecodeLevel);
@@ -337,6 +338,192 @@ fn enums(a: &ShardArgs) {
     round_trip!(a, "PhysDecodeLevel", ffi::PhysDecodeLevel, dnp3::decode::PhysDecodeLevel);
     round_trip!(a, "CommandStatus", ffi::CommandStatus, CommandStatus);
     round_trip!(a, "FunctionCode", ffi::FunctionCode, dnp3::app::FunctionCode);
+}
+
+/// what a task error is called on the binding side (written from the meaning of the variants, not from the binding code)
+fn task_error_name(e: &dnp3::master::TaskError) -> &'static str {
+    use dnp3::master::TaskError as T;
+    match e {
+        T::TooManyRequests => "toomanyrequests",
+        // no usable connection
+        T::Link(_) | T::Transport | T::NoConnection | T::Disabled => "noconnection",
+        // a response arrived but could not be used
+        T::MalformedResponse(_) | T::UnexpectedResponseHeaders | T::NonFinWithoutCon | T::NeverReceivedFir | T::UnexpectedFir | T::MultiFragmentResponse => "badresponse",
+        T::ResponseTimeout => "responsetimeout",
+        T::WriteError => "writeerror",
+        T::NoSuchAssociation(_) => "associationremoved",
+        T::Shutdown => "shutdown",
+        T::BadEncoding(_) => "badencoding",
+        T::RejectedByIin2(_) => "iinerror",
+    }
+}
+
+fn all_task_errors() -> Vec<dnp3::master::TaskError> {
+    use dnp3::master::TaskError as T;
+    let iin = dnp3::app::Iin::new(dnp3::app::Iin1::new(0), dnp3::app::Iin2::new(4));
+    vec![
+        T::TooManyRequests,
+        T::Link(dnp3::verif::util::some_link_error()),
+        T::Transport,
+        T::RejectedByIin2(iin),
+        T::MalformedResponse(dnp3::verif::util::some_object_parse_error()),
+        T::UnexpectedResponseHeaders,
+        T::NonFinWithoutCon,
+        T::NeverReceivedFir,
+        T::UnexpectedFir,
+        T::MultiFragmentResponse,
+        T::ResponseTimeout,
+        T::WriteError,
+        T::BadEncoding(dnp3::verif::util::some_bad_encoding()),
+        T::NoSuchAssociation(dnp3::link::EndpointAddress::try_new(7).unwrap()),
+        T::NoConnection,
+        T::Shutdown,
+        T::Disabled,
+    ]
+}
+
+/// error types: every native variant (payload variants with a representative payload) against a
+/// hand-written statement of what it is called on the binding side
+fn errors(a: &ShardArgs) {
+    use dnp3::master::*;
+    macro_rules! task_errors_into {
+        ($ffi:ident) => {{
+            let mut n = 0;
+            for e in all_task_errors() {
+                let f: ffi::$ffi = e.into();
+                out::eval(1);
+                if norm(&f) != task_error_name(&e) {
+                    viol(a, "name_mismatch", &format!("TaskError->{}|{}", stringify!($ffi), norm(&e)), format!("{e:?} is converted to {}::{f:?}", stringify!($ffi)));
+                } else {
+                    out::count("variants_map_to_namesake", 1);
+                }
+                n += 1;
+            }
+            out::count(concat!("conversion_TaskError->", stringify!($ffi)), n);
+            out::distinct(concat!("conv/TaskError->", stringify!($ffi)));
+        }};
+    }
+    task_errors_into!(CommandError);
+    task_errors_into!(TimeSyncError);
+    task_errors_into!(RestartError);
+    task_errors_into!(ReadError);
+    task_errors_into!(LinkStatusError);
+    task_errors_into!(TaskError);
+    task_errors_into!(EmptyResponseError);
+    task_errors_into!(FileError);
+    // command errors
+    {
+        let mut cases: Vec<(CommandError, String)> = vec![];
+        for e in all_task_errors() {
+            cases.push((CommandError::Task(e), task_error_name(&e).into()));
+            cases.push((CommandError::Response(CommandResponseError::Request(e)), task_error_name(&e).into()));
+        }
+        cases.push((CommandError::Response(CommandResponseError::BadStatus(CommandStatus::Timeout)), "badstatus".into()));
+        for r in [CommandResponseError::HeaderCountMismatch, CommandResponseError::HeaderTypeMismatch, CommandResponseError::ObjectCountMismatch, CommandResponseError::ObjectValueMismatch] {
+            cases.push((CommandError::Response(r), "headermismatch".into()));
+        }
+        for (e, want) in cases {
+            let f: ffi::CommandError = e.into();
+            out::eval(1);
+            if norm(&f) != want {
+                viol(a, "name_mismatch", &format!("CommandError|{want}"), format!("{e:?} is converted to {f:?}"));
+            } else {
+                out::count("variants_map_to_namesake", 1);
+            }
+        }
+        out::distinct("conv/CommandError");
+    }
+    // time synchronisation errors
+    {
+        let mut cases: Vec<(TimeSyncError, String)> = all_task_errors().into_iter().map(|e| (TimeSyncError::Task(e), task_error_name(&e).to_string())).collect();
+        cases.push((TimeSyncError::ClockRollback, "clockrollback".into()));
+        cases.push((TimeSyncError::SystemTimeNotUnix, "systemtimenotunix".into()));
+        cases.push((TimeSyncError::BadOutstationTimeDelay(9), "badoutstationtimedelay".into()));
+        cases.push((TimeSyncError::Overflow, "overflow".into()));
+        cases.push((TimeSyncError::StillNeedsTime, "stillneedstime".into()));
+        cases.push((TimeSyncError::SystemTimeNotAvailable, "systemtimenotavailable".into()));
+        cases.push((TimeSyncError::IinError(dnp3::app::Iin2::new(4)), "iinerror".into()));
+        for (e, want) in cases {
+            let f: ffi::TimeSyncError = e.into();
+            out::eval(1);
+            if norm(&f) != want {
+                viol(a, "name_mismatch", &format!("TimeSyncError|{want}"), format!("{e:?} is converted to {f:?}"));
+            } else {
+                out::count("variants_map_to_namesake", 1);
+            }
+        }
+        out::distinct("conv/TimeSyncError");
+    }
+    // file errors and file types
+    {
+        let mut cases: Vec<(FileError, String)> = all_task_errors().into_iter().map(|e| (FileError::TaskError(e), task_error_name(&e).to_string())).collect();
+        for (e, n) in [
+            (FileError::BadResponse, "badresponse"),
+            (FileError::BadStatus(dnp3::app::FileStatus::FileLocked), "badstatus"),
+            (FileError::WrongHandle, "wronghandle"),
+            (FileError::NoPermission, "nopermission"),
+            (FileError::BadBlockNum, "badblocknum"),
+            (FileError::AbortByUser, "abortbyuser"),
+            (FileError::MaxLengthExceeded, "maxlengthexceeded"),
+        ] {
+            cases.push((e, n.into()));
+        }
+        for (e, want) in cases {
+            let f: ffi::FileError = e.into();
+            out::eval(1);
+            if norm(&f) != want {
+                viol(a, "name_mismatch", &format!("FileError|{want}"), format!("{e:?} is converted to {f:?}"));
+            } else {
+                out::count("variants_map_to_namesake", 1);
+            }
+        }
+        for (t, want) in [(dnp3::app::FileType::Directory, "directory"), (dnp3::app::FileType::File, "simple"), (dnp3::app::FileType::Other(9), "other")] {
+            let f: ffi::FileType = t.into();
+            out::eval(1);
+            if norm(&f) != want {
+                viol(a, "name_mismatch", &format!("FileType|{want}"), format!("{t:?} is converted to {f:?}"));
+            } else {
+                out::count("variants_map_to_namesake", 1);
+            }
+        }
+        out::distinct("conv/FileError");
+    }
+    // write errors, association / poll errors
+    {
+        for e in all_task_errors() {
+            let f: ffi::EmptyResponseError = WriteError::Task(e).into();
+            out::eval(1);
+            if norm(&f) != task_error_name(&e) {
+                viol(a, "name_mismatch", &format!("WriteError|{}", task_error_name(&e)), format!("WriteError::Task({e:?}) is converted to {f:?}"));
+            } else {
+                out::count("variants_map_to_namesake", 1);
+            }
+        }
+        let f: ffi::EmptyResponseError = WriteError::IinError(dnp3::app::Iin2::new(4)).into();
+        if norm(&f) != "rejectedbyiin2" {
+            viol(a, "name_mismatch", "WriteError|iinerror", format!("WriteError::IinError is converted to {f:?}"));
+        }
+        let addr = dnp3::link::EndpointAddress::try_new(7).unwrap();
+        for (e, want) in [(AssociationError::Shutdown, "masteralreadyshutdown"), (AssociationError::DuplicateAddress(addr), "associationduplicateaddress")] {
+            let f: ffi::ParamError = e.into();
+            out::eval(1);
+            if norm(&f) != want {
+                viol(a, "name_mismatch", &format!("AssociationError|{want}"), format!("{e:?} is converted to {f:?}"));
+            } else {
+                out::count("variants_map_to_namesake", 1);
+            }
+        }
+        for (e, want) in [(PollError::Shutdown, "masteralreadyshutdown"), (PollError::NoSuchAssociation(addr), "associationdoesnotexist")] {
+            let f: ffi::ParamError = e.into();
+            out::eval(1);
+            if norm(&f) != want {
+                viol(a, "name_mismatch", &format!("PollError|{want}"), format!("{e:?} is converted to {f:?}"));
+            } else {
+                out::count("variants_map_to_namesake", 1);
+            }
+        }
+        out::distinct("conv/ParamError");
+    }
 }
 
 fn time_of(q: c_int, v: u64) -> ffi::Timestamp {
@@ -557,6 +744,28 @@ fn structs(a: &ShardArgs) {
         let oc: AnalogOutputStatusConfig = ffi::AnalogOutputStatusConfig { static_variation: ffi::StaticAnalogOutputStatusVariation::Group40Var1.into(), event_variation: ffi::EventAnalogOutputStatusVariation::Group42Var1.into(), deadband: db }.into();
         if c.deadband != db || oc.deadband != db {
             viol(a, "field_lost", "AnalogInputConfig|deadband", format!("dead-band {db} converted to {} / {}", c.deadband, oc.deadband));
+        }
+    }
+    // file permissions: world / group / owner each with its own pattern, both directions
+    {
+        use dnp3::app::{PermissionSet, Permissions};
+        for k in 0..8u8 {
+            let set = |x: u8| PermissionSet { execute: x & 1 != 0, write: x & 2 != 0, read: x & 4 != 0 };
+            let n = Permissions { world: set(k), group: set(k.wrapping_add(3) & 7), owner: set(k.wrapping_add(5) & 7) };
+            let f: ffi::Permissions = n.into();
+            let got = |p: &ffi::PermissionSet| (p.execute as u8) | (p.write as u8) << 1 | (p.read as u8) << 2;
+            out::eval(1);
+            if got(&f.world) != k || got(&f.group) != (k.wrapping_add(3) & 7) || got(&f.owner) != (k.wrapping_add(5) & 7) {
+                viol(a, "field_lost", "Permissions(out)", format!("{n:?} converted to world={:03b} group={:03b} owner={:03b}", got(&f.world), got(&f.group), got(&f.owner)));
+            } else {
+                out::count("permissions_ok", 1);
+            }
+            let back: Permissions = f.into();
+            if back != n {
+                viol(a, "round_trip", "Permissions", format!("{n:?} -> binding -> {back:?}"));
+            } else {
+                out::count("round_trips_ok", 1);
+            }
         }
     }
     // CROB
